@@ -38,6 +38,7 @@ var solvers = []solverSpec{
 func (x *Exec) buildScript(o *Obligation, extraFacts []*Term, getVals []*Term) string {
 	facts := x.facts[:o.NFacts]
 	var as []*Term
+	as = append(as, x.perm...)
 	as = append(as, facts...)
 	as = append(as, extraFacts...)
 	neg := And(o.Guard, Not(o.Goal))
@@ -74,7 +75,7 @@ func (x *Exec) renderScript(as []*Term, neg *Term, getVals []*Term) string {
 	for _, v := range getVals {
 		v.symbols(used, seen)
 	}
-	order := []string{"str", "substr", "mkstr", "concat", "strcmp", "alloc"}
+	order := []string{"str", "substr", "mkstr", "concat", "strcmp", "prefix", "alloc"}
 	var axText strings.Builder
 	for _, g := range order {
 		if !on[g] {
@@ -228,7 +229,14 @@ func runSolvers(script, workDir, tag string, timeoutS int, which []string) *Solv
 			t0 := time.Now()
 			cmd.Run()
 			el := time.Since(t0).Seconds()
-			first := strings.TrimSpace(strings.SplitN(out.String(), "\n", 2)[0])
+			first := ""
+			for _, ln := range strings.Split(out.String(), "\n") {
+				ln = strings.TrimSpace(ln)
+				if ln == "sat" || ln == "unsat" || ln == "unknown" || strings.Contains(ln, "timeout") || strings.HasPrefix(ln, "(error") {
+					first = ln
+					break
+				}
+			}
 			status := "error"
 			switch {
 			case first == "unsat" || first == "sat" || first == "unknown":
